@@ -262,6 +262,43 @@ func RunC11(ch *core.Chooser, env *Env) *Outcome {
 		lists[0].Text = b.String()
 		out.Probes["runs_with_offsets_beyond_1MiB"]++
 	}
+	// rarely: one line of more than 1 MiB between ordinary ones (a rule, a
+	// comment or a hosts line with very many names)
+	giant := !many && ch.Intn("c11.giant", 250) == 249
+	if giant {
+		// (readLine appends block by block and copies what it has so far
+		// every time: quadratic in line length over buffer size, so only the
+		// 4 KiB buffer is used here)
+		knob = 4096
+		n := 1<<20 + 1 + ch.Intn("c11.giantn", 200000)
+		var g string
+		switch ch.Intn("c11.giantkind", 3) {
+		case 0:
+			// (not a network rule: the shortcuts table indexes every 5-byte
+			// window of a pattern, three engines per backing)
+			var b strings.Builder
+			b.WriteString("0.0.0.0")
+			for i := 0; b.Len() < n; i++ {
+				fmt.Fprintf(&b, " g%d.%s", i, hosts[0])
+			}
+			g = b.String()
+		case 1:
+			g = "! " + strings.Repeat("c", n)
+		default:
+			g = hosts[0] + "##." + strings.Repeat("s", n)
+		}
+		t := lists[0].Text
+		cut := 0
+		if i := strings.IndexByte(t, '\n'); i >= 0 {
+			cut = i + 1
+		}
+		tail := t[cut:]
+		if tail != "" && !strings.HasSuffix(tail, "\n") && ch.Intn("c11.giantlast", 2) == 0 {
+			tail += "\n"
+		}
+		lists[0].Text = t[:cut] + g + "\n" + "||after-the-giant.example.org^\n" + tail
+		out.Probes["runs_with_a_line_beyond_1MiB"]++
+	}
 	// now and then two lists whose ids and lines run into each other when
 	// written next to each other without a separator: id 1 with "10.0.0.1 h"
 	// against id 11 with "0.0.0.1 h", id 1 with "0.0.0.0 h1" against id 11
@@ -337,7 +374,7 @@ func RunC11(ch *core.Chooser, env *Env) *Outcome {
 	splitCRLF, splitUTF8, reads := 0, 0, 0
 	for li, l := range lists {
 		maxChunk := []int{1, 2, 3, 5, 16, 100, 4096, 8192}[ch.Intn("chunk.max", 8)]
-		if many && maxChunk < 4096 {
+		if (many || giant) && maxChunk < 4096 {
 			maxChunk = 4096
 		}
 		cr := &disk.ChunkReader{Data: []byte(l.Text), Max: maxChunk, Ch: ch}
@@ -596,6 +633,9 @@ func RunC11(ch *core.Chooser, env *Env) *Outcome {
 		data := []byte(lists[w.li].Text)
 		cr := &disk.ChunkReader{Data: data, Pos: w.r.offset, Max: []int{1, 2, 7, 64, 4096}[ch.Intn("rl.max", 5)], Ch: ch}
 		buf := make([]byte, []int{1, 2, 3, 7, 64, 4096}[ch.Intn("rl.buf", 6)])
+		if giant {
+			cr.Max, buf = 4096, make([]byte, 4096)
+		}
 		var line string
 		var err error
 		if perr := safely(func() { line, err = filterlist.VerifReadLine(cr, buf) }); perr != "" {
